@@ -22,6 +22,10 @@ From CB Require Import Trie.MerkleHashProofs.
 From CB Require Import Trie.HashHistory.
 From CB Require Import Trie.Persist.
 From CB Require Import Trie.PersistProofs.
+From CB Require Import Trie.PersistFreezeProofs.
+From CB Require Import Trie.SerializeProofs.
+From CB Require Import Trie.Nibbles.
+From CB Require Import Trie.MerkleStem.
 Import ListNotations.
 Local Open Scope N_scope.
 
@@ -114,6 +118,21 @@ Theorem stem_packing_invertible : forall ns, nibbles_ok ns = true -> unpack (len
 Proof. exact unpack_pack. Qed.
 Print Assumptions stem_packing_invertible.
 
+(** On the stored representation of C03's [Nibbles.stem] (= [Stem { data, last_partial }]):
+    for a well-formed stem the hashed stem bytes are literally [st_data] and the hashed
+    length is [st_len] - the two components of [Stem::to_slice]. *)
+Theorem hashed_stem_is_stored_stem : forall (sha256 : list N -> list N) (s : stem) ov cs,
+  st_wf s = true ->
+  MerkleHash.pack (nibbles s) = st_data s /\ lenN (nibbles s) = N.of_nat (st_len s)
+  /\ hash_node sha256 (Node (nibbles s) ov cs) =
+     sha256 (value_part sha256 ov ++ le64 (N.of_nat (st_len s)) ++ st_data s
+             ++ sha256 (be16 (N.of_nat (flen cs)) ++ hash_children sha256 cs)).
+Proof.
+  exact (fun sha s ov cs H => conj (proj1 (MerkleStem.hashed_stem_is_stored_stem s H))
+           (conj (proj2 (MerkleStem.hashed_stem_is_stored_stem s H)) (hash_node_stored_stem sha s ov cs H))).
+Qed.
+Print Assumptions hashed_stem_is_stored_stem.
+
 (** ** The annotated operations of [Persist.v] are the radix-tree operations *)
 Theorem persist_model_refines_radix :
   (forall r k v, erase (a_insert_root k v r) = insert_root k v (erase_root r))
@@ -146,6 +165,45 @@ Theorem untouched_subtree_reused : forall t, all_orig t = true -> freeze t = (fa
 Proof. exact (proj1 freeze_orig_mut). Qed.
 Print Assumptions untouched_subtree_reused.
 
+(** The collector counts exactly the new data: a node is paid for (tag + stem + 9 bytes per
+    child) iff it is rebuilt, i.e. iff it or something below it lost its origin or holds
+    an owned value - the nodes on the modified paths; a value is paid for (length + 32) iff
+    it is owned (inserted or written since the thaw). *)
+Theorem collector_counts_exactly_new_data :
+  (forall t, fst (fst (freeze t)) = negb (all_orig t) /\ snd (freeze t) = charge_spec t)
+  /\ (forall r, snd (freeze_root r) = match r with Some t => charge_spec t | None => 0 end).
+Proof. exact (conj (proj1 freeze_charge_mut) freeze_root_charge). Qed.
+Print Assumptions collector_counts_exactly_new_data.
+
+(** Thaw a state that is consistent with the backing store, apply ANY sequence of insert /
+    delete / delete_prefix / get_mut+write, freeze: the frozen state is consistent with the
+    store again (re-used origins keep their references, rebuilt nodes and new values have
+    none) ... *)
+Theorem thaw_modify_freeze_consistent : forall (sha256 : list N -> list N) st (ops : list mop) r,
+  consistent_root sha256 st r ->
+  consistent_root sha256 st (fst (freeze_root (fold_left (fun x o => apply_mop o x) ops (thaw r)))).
+Proof. exact thaw_modify_freeze_consistent_root. Qed.
+Print Assumptions thaw_modify_freeze_consistent.
+
+(** ... hence [store_update] after the modifications writes a top record that names the root,
+    following the references loads the frozen tree with the right hashes, and the states
+    that result are consistent again: the store / load / modify / store chain is closed. *)
+Theorem modified_state_store_roundtrip : forall (sha256 : list N -> list N),
+  (forall x, length (sha256 x) = 32%nat) ->
+  forall st (ops : list mop) r t' st' kept loaded top,
+  consistent_root sha256 st r ->
+  fst (freeze_root (fold_left (fun x o => apply_mop o x) ops (thaw r))) = Some t' ->
+  tree_ok t' -> bounded st ->
+  store_update sha256 (Some t') st = (st', kept, loaded, top) -> s_next st' < 2 ^ 64 ->
+  erase_root kept = Some (erase t') /\ erase_root loaded = Some (erase t')
+  /\ (exists x, root_ref loaded = Some x /\ load_raw st' top = Some (1 :: be64 x)
+                /\ loads sha256 st' x (erase t'))
+  /\ bounded st'
+  /\ (match kept with Some k => consistent sha256 st' k | None => False end)
+  /\ (match loaded with Some l => consistent sha256 st' l | None => False end).
+Proof. exact modified_state_stores. Qed.
+Print Assumptions modified_state_store_roundtrip.
+
 (** [cache] changes neither contents nor locations (in the model it is the identity: the
     model has no separate "cached" status; the implementation is tied by correspondence). *)
 Theorem cache_is_identity : forall r, cache r = r.
@@ -168,7 +226,7 @@ Print Assumptions node_record_roundtrip.
     the top record names the root record, following the references from it loads the same
     tree, and the hash stored with the root (and, since [loads] holds for every stored
     subtree, with every node) is the hash of the tree.  (That [freeze] after modifications
-    of a stored state yields a consistent state again is tied by the correspondence.) *)
+    of a stored state yields a consistent state again: [thaw_modify_freeze_consistent].) *)
 Theorem store_load_roundtrip : forall (sha256 : list N -> list N),
   (forall x, length (sha256 x) = 32%nat) ->
   forall t st st' kept loaded top,
@@ -219,18 +277,30 @@ Theorem migrate_bytes_readable : forall (sha256 : list N -> list N) r st' r',
 Proof. exact PersistProofs.migrate_bytes_readable. Qed.
 Print Assumptions migrate_bytes_readable.
 
-(** Every record written by [serialize] is read back by the record reader of
-    [deserialize].  PARTIAL: the breadth-first reassembly of the tree from the records is
-    not proved; the check runs the model's [deserialize] on every serialised state and
-    compares (and the example below). *)
-Theorem serialize_deserialize_roundtrip_partial : forall (sha256 : list N -> list N),
+(** [deserialize (serialize t) = t]: the breadth-first record stream is read back and
+    reassembled into exactly the serialised tree, nothing is left over, and the hash read
+    for the root is the hash of the tree - so contents and hash are preserved.  (Side
+    conditions: nibbles < 16, stems / values / node count below 2^32, as the format needs.) *)
+Theorem serialize_deserialize_roundtrip : forall (sha256 : list N -> list N),
+  (forall x, length (sha256 x) = 32%nat) ->
+  (forall t, tok t -> N.of_nat (tsize t) < 2 ^ 32 ->
+     deserialize (serialize sha256 (Some t)) = Some (Some (t, hash_node sha256 t), []))
+  /\ deserialize (serialize sha256 None) = Some (None, []).
+Proof.
+  exact (fun sha len => conj (deserialize_serialize sha len) (deserialize_serialize_empty sha)).
+Qed.
+Print Assumptions serialize_deserialize_roundtrip.
+
+(** ... and record by record: what [serialize] writes for a node is what the record reader
+    of [deserialize] returns. *)
+Theorem serialize_record_roundtrip : forall (sha256 : list N -> list N),
   (forall x, length (sha256 x) = 32%nat) ->
   forall back p ov cs rest,
   back < 2 ^ 32 -> path_ok p -> (match ov with Some v => lenN v < 2 ^ 32 | None => True end) ->
   dec_ser_record (ser_record sha256 back (Node p ov cs) ++ rest)
   = Some (mkD back (hash_node sha256 (Node p ov cs)) p (ser_value_dec sha256 ov) (flabels cs), rest).
 Proof. exact dec_ser_record_enc. Qed.
-Print Assumptions serialize_deserialize_roundtrip_partial.
+Print Assumptions serialize_record_roundtrip.
 
 (** ** Non-vacuity *)
 
